@@ -361,9 +361,9 @@ def main(argv):
             broken.append("audit: required theorem %s is missing" % name)
 
     # -- 4. correspondence + oracle ---------------------------------------------------
-    boost = 1
+    boost = int(getattr(mod, "QUICK_BOOST", 1)) if tier == "quick" else 1   # cheap checks run a larger stream
     if broken:
-        boost = 4     # the failing-input search: same generators, larger budget
+        boost *= 4    # the failing-input search: same generators, larger budget
     res = engine.Result()
     ops = mod.ops()
     known = engine.load_known()
